@@ -171,6 +171,15 @@ fn main() {
             let cases: Vec<Value> = read_histories(&args.input).into_iter().flatten().collect();
             mdwh::memread::run(&cases, args.random, args.seed, &workdir, &mut tr);
         }
+        "elf" => {
+            let workdir = flag_str(&args.extra, "--workdir").unwrap_or_else(|| "/tmp".into());
+            for c in read_histories(&args.input).into_iter().flatten() {
+                mdwh::elfcases::model_case(&c, &mut tr, &workdir);
+            }
+            mdwh::elfcases::fuzz_cases(args.random, args.seed, &mut tr);
+            mdwh::elfcases::system_files(flag_val(&args.extra, "--sysfiles").unwrap_or(0) as usize, &mut tr);
+            mdwh::elfcases::live_mappings(&workdir, &mut tr);
+        }
         "flood" => {
             let workdir = flag_str(&args.extra, "--workdir").unwrap_or_else(|| "/tmp".into());
             let rounds = flag_val(&args.extra, "--rounds").unwrap_or(1);
